@@ -14,6 +14,7 @@ from . import Profile, COMPONENTS_COMMON
 from .. import catalog as C
 from .. import common as U
 from .. import jcs
+from .. import tsparse
 from ..core import Violation, call
 
 NAMESPACE = '00abedb4-aa42-466c-9c01-fed23315a9b7'
@@ -334,7 +335,7 @@ class C06(Profile):
     owns_registries = True
     tiers = {'quick': 4000, 'thorough': 200000}
     wall_cap = {'quick': 900, 'thorough': 5 * 3600}
-    probes = ['timestamp_as_datetime_in_dst_zone', 'defaulted_contributing_property', 'construction_refused_during_id_generation', 'utf16_vs_codepoint_member_order', 'disturbance_between_constructions', 'no_contributing_property_v4', 'hash_preference_applied', 'non_preferred_single_hash', 'non_preferred_several_hashes_first_wins', 'extension_with_float', 'custom_observable',
+    probes = ['timestamp_as_datetime_in_dst_zone', 'timestamp_as_value_of_another_object', 'defaulted_contributing_property', 'construction_refused_during_id_generation', 'utf16_vs_codepoint_member_order', 'disturbance_between_constructions', 'no_contributing_property_v4', 'hash_preference_applied', 'non_preferred_single_hash', 'non_preferred_several_hashes_first_wins', 'extension_with_float', 'custom_observable',
               'equal_contrib_different_noncontrib', 'near_miss_different_id', 'string_needing_escape', 'astral_or_bmp_boundary',
               'route_bundle_member', 'route_memory_store', 'uuid4_stream_differs', 'hash_names_respelled', 'falsy_contributing_value']
     rule = ('plans: 6-14 items (a 2.1 observable type incl. two registered custom observables, contributing and non-contributing values with '
@@ -551,6 +552,15 @@ class C06(Profile):
                     if loc is not None:
                         props[k2] = loc
                         world.probe('timestamp_as_datetime_in_dst_zone')
+        if route.startswith('kwargs') and op.get('perm', 0) % 3 == 1:
+            # timestamps handed over as the datetime VALUES another object holds (what a caller gets from identity.created: a
+            # STIXdatetime that carries that property's precision settings) - the same instants
+            for k2 in ('start', 'end', 'seen_ms', 'seen_any', 'date'):
+                if isinstance(props.get(k2), str):
+                    donor = call(lambda: s.v21.Identity(name='donor', created=props[k2], modified=props[k2]))
+                    if donor.ok and tsparse.us_of(props[k2]) % 1000 == 0:
+                        props[k2] = donor.value['created']
+                        world.probe('timestamp_as_value_of_another_object')
         if route.startswith('kwargs'):
             keys = list(props)
             if route == 'kwargs_reversed':
